@@ -382,7 +382,15 @@ class Gen:
         conj.append({'test': self.cond(2)})
       elif r < 0.85 and self.on('records', 0.9) and ints:
         rv = self.fresh('r')
-        conj.append({'eq': [V(rv), self.rec_expr(2)]})
+        rexpr = self.rec_expr(2)
+        if 'ite' in self.mask and rng.random() < 0.3:
+          # multi-armed if mixing record literals and a record variable
+          r0 = self.fresh('r')
+          conj.append({'eq': [V(r0), self.rec_expr(0)]})
+          arms = [[self.cond(1), self.rec_expr(0)], [self.cond(1), V(r0)]]
+          rng.shuffle(arms)
+          rexpr = {'if': arms, 'else': self.rec_expr(0) if rng.random() < 0.7 else V(r0)}
+        conj.append({'eq': [V(rv), rexpr]})
         v = self.fresh('z')
         conj.append({'eq': [V(v), {'sub': V(rv), 'field': rng.choice(['p', 'q'])}]})
         env[v] = 'int'
